@@ -9,6 +9,7 @@ fonts, adversarial rule actions that pass the real loader, and byte-mutated font
 import os, re, struct, shutil
 import vlib
 from props import shapegen as S, engine, vmslotgen as V
+OPDEL = 32
 
 
 def tables(d):
@@ -301,6 +302,31 @@ def run(chk):
                 chk.tie_break('harness', 'unparsable dump', c[:300])
     total += len(ccases)
     shutil.rmtree(cdir, ignore_errors=True)
+    # --- a slot map that the FSM returns completely full, with a rule matched one slot after its start and as many NEXTs as the loader
+    #     admits: the action's cursor then stands one past the last map entry, where the interpreter stores the current slot (F29)
+    fdir2 = os.path.join(vlib.BUILD, 'fuzzfonts', 'c02f-%s-%d' % (chk.tier, chk.seed))
+    shutil.rmtree(fdir2, ignore_errors=True); os.makedirs(fdir2)
+    pad = open(os.path.join(vlib.REPO, 'tests/fonts/Padauk.ttf'), 'rb').read()
+    pcm = cmapgen.parse_font_cmap(os.path.join(vlib.REPO, 'tests/fonts/Padauk.ttf'))
+    pmo = K.font_tables(pad)[b'maxp'][0]; png = struct.unpack('>H', pad[pmo + 4:pmo + 6])[0]
+    fcases = []
+    for nn in (61, 62, 63):
+        for extra, nm in (((), 'plain'), ((OPDEL,), 'delete')):
+            fp2 = os.path.join(fdir2, 'full%d%s.ttf' % (nn, nm))
+            open(fp2, 'wb').write(K.replace_table(pad, b'Silf', K.silf_full_map(pcm[0x61], png - 1, nn, extra)))
+            for lead in (62, 63, 64):
+                fcases.append(S.case_line('full%d%s.%d' % (nn, nm, lead), fp2, [0x61] * lead + [0x62] + [0x61] * 4, 32, ops=('dump',)))
+    _, fil, _ = vlib.run_pair(None, w, fcases, timeout=1200, shards=2)
+    for c, i in zip(fcases, fil):
+        if i is None:
+            chk.tie_break('harness', 'no result line', c[:300]); continue
+        if 'ABORT' in i.split()[1:3]:
+            chk.violation('c02:fullmap:abort:%s' % c.split()[0], 'shaping with a rule that spans a completely full slot map aborted (sanitizer report, crash or watchdog): %s' % i[:300],
+                          dict(case=c, got=i[:800], tag='fullmap', font_hex_gz=c06.blob(c.split()[2])))
+        else:
+            classes.add(('fullmap', c.split()[0].split('.')[0], i.split()[1] == 'NULLSEG'))
+    total += len(fcases)
+    shutil.rmtree(fdir2, ignore_errors=True)
     # --- mutated fonts that the real loader accepts
     fdir = os.path.join(vlib.BUILD, 'fuzzfonts', 'c02-%s-%d' % (chk.tier, chk.seed))
     shutil.rmtree(fdir, ignore_errors=True)
